@@ -440,3 +440,51 @@ def run(ctx):
                              loc=f.loc(c))
     if npark < 2:
         raise Broken("C16.R7: only %d park/release sites of the control listener" % npark)
+
+    # ------------------------------------------------------------------ R8
+    # close(2) drops an epoll registration only when the LAST reference to the open file goes away.  A descriptor that a
+    # forked/exec'ed child inherited (XCM's descriptors are not close-on-exec) stays registered when only closed; the
+    # EPOLL_CTL_DEL that follows fails with EBADF, which xpoll ignores, and the hung-up file keeps xcm_fd() readable
+    # for ever.  Hence: deregister first, close second - the order every site of the library but one uses.
+    r8 = ctx.rule("C16.R8", "a descriptor is taken out of the epoll set before it is closed")
+    CLOSERS = ("ut_close", "ut_close_if_valid", "close")
+    DELS = ("xpoll_fd_reg_del", "xpoll_fd_reg_del_if_valid")
+    # one named exception, with its reason
+    EXEMPT = {("libxcm/tp/ux/xcm_tp_ux.c", "deinit"): "a top-level UX socket destroys its whole epoll instance right after deinit; as the UX leg of a UTLS "
+              "socket the descriptor is created and closed inside one API call, so no other process can hold a copy"}
+    npair = 0
+    for f in P.functions:
+        if not f.file.startswith("libxcm/") or "sctp" in f.file or "glibc" in f.file:
+            continue
+        cl = [(c, f.nodes[c]) for c in f.calls() if f.nodes[c].get("callee") in CLOSERS and f.nodes[c]["args"]]
+        dl = [(c, f.nodes[c]) for c in f.calls() if f.nodes[c].get("callee") in DELS and len(f.nodes[c]["args"]) > 1]
+        pairs = []
+        for cc, cn in cl:
+            pf = f.apath_str(f.origin(cn["args"][0]))
+            for dc, dn in dl:
+                pr = f.apath_str(f.origin(dn["args"][1]))
+                if pr == pf + "_reg_id" or (pf.rsplit(".", 1)[0] == pr.rsplit(".", 1)[0] and pf.endswith(".fd") and pr.endswith(".fd_reg_id")):
+                    pairs.append((cc, dc, pf))
+        for cc, dc, pf in pairs:
+            npair += 1
+            r8.instance("%s: %s" % (f.qname, pf))
+            cb, ci = f.where()[cc]
+            db, di = f.where()[dc]
+            close_first = (cb == db and ci < di) or (cb != db and db in C.reachable_blocks(f, cb))
+            if not close_first:
+                r8.ok("%s: %s is deregistered before it is closed" % (f.qname, pf), "order of the two calls on every path")
+            elif (f.file, f.name) in EXEMPT:
+                r8.ok("%s: closed before deregistered - exempt: %s" % (f.qname, EXEMPT[(f.file, f.name)]), "named exception")
+            else:
+                r8.violation("%s:close-before-deregister:%s" % (f.name, pf.rsplit(".", 1)[-1]), "%s closes %s and only then removes it from the epoll set: if a child process inherited the "
+                             "descriptor, the registration survives the close, the removal fails with EBADF (ignored) and the hung-up file keeps xcm_fd() readable for ever" % (f.name, pf),
+                             loc=f.loc(cc))
+    if npair < 4:
+        raise Broken("C16.R8: only %d close/deregister pairs found" % npair)
+
+    # ------------------------------------------------------------------ R9
+    # interest that has served its purpose is withdrawn by the update that follows every operation (C04.R1's engine):
+    # without it EPOLLOUT stays armed after the last bytes were flushed and the idle descriptor is readable for nothing
+    from . import C04 as c04
+    r9 = ctx.rule("C16.R9", "send/receive/finish are followed by the socket's update on every path (stale interest is withdrawn)")
+    c04.check_update_after_ops(P, r9, ops=("xcm_tp_socket_send", "xcm_tp_socket_receive", "xcm_tp_socket_finish"))
